@@ -449,6 +449,7 @@ impl Interp {
                     self.probes.hit("dst_result_at_8_mod_16");
                 }
             }
+            None if !simalloc::tracking() => {}
             None => self.viol("alloc-layout", k, format!("{what}: object does not start at a live allocation")),
         }
         let sov = obj.size_of_val();
